@@ -252,7 +252,14 @@ def run(res, tier, seed):
         if isinstance(m, str) or is_var(m):
             continue
         if m.errors():
-            res.count("skipped_invalid"); continue
+            # the property speaks of every formula, validated or not: the truth table of an expression whose ids collide
+            # (a named operand next to its own negation, generated ids of look-alike siblings) is checked all the same;
+            # only the JSON route and the structural correspondence are left to the validated ones
+            res.count("not_validated_truth_table_only")
+            bad = oracle_formula(res, ast, m)
+            if bad:
+                res.violation("oracle", f"{m!r} built from {json.dumps(ast_json(ast))[:300]}: {bad['problem']}", bad)
+            continue
         res.count("kind_" + ast["k"]); res.count("depth_%d" % ast_depth(ast))
         if ast_depth(ast) >= 2 and has_neg_over_mixed(ast):
             res.nt(canon(m)); res.count("negating_over_mixed")
